@@ -63,6 +63,10 @@ class Transformer:
                     except AttributeError as attribute_error:
                         if type(classobject) is not UFLType:
                             raise attribute_error
+                        if c is not object:
+                            # Skip mixin classes that are not UFL types
+                            # (e.g. Cofunction(BaseCoefficient, BaseForm))
+                            continue
                         # Default handler name for UFL types
                         handler_name = UFLType._ufl_handler_name_
                     function = getattr(self, handler_name, None)
